@@ -7,10 +7,12 @@ CONSTANTS K,      \* accidental strings up to this length, every order
           M       \* malformed strings up to this length
 Alphabet == {"A","B","C","D","E","F","G","H","c","#","b","x","1"," ","-","\n","\t"}
 Strings(m) == UNION {[1..j -> Alphabet] : j \in 1..m}
+\* products are written compactly (the harness expands them mechanically): all ordered pairs over a name set,
+\* all non-empty strings over the alphabet up to a length
 Cases ==
   {[kind |-> "name", n |-> n] : n \in Names(K)} \cup
-  {[kind |-> "pair", a |-> a, b |-> b] : a \in Names(KP), b \in Names(KP)} \cup
-  {[kind |-> "str", s |-> s] : s \in Strings(M)} \cup
+  {[kind |-> "pairs_over", names |-> SetToSeq(Names(KP))]} \cup
+  {[kind |-> "strings_over", alphabet |-> SetToSeq(Alphabet), maxlen |-> M]} \cup
   {[kind |-> "int", i |-> i, style |-> st] : i \in -14..26, st \in {<<"#">>, <<"b">>, <<"x">>, <<"#","#">>, <<"B">>}}
 VARIABLE done
 Init == done = ndJsonSerialize(IOEnv.OUT, SetToSeq(Cases))
